@@ -334,7 +334,8 @@ def check_graph(desc: dict[str, Any], col: common.Collector, apps: list[Any], tr
                 if n_out > n_in and not flags.get("may_grow"):
                     col.violation(f"C13:more-distinct-nodes:{name}",
                                   f"{name}: result has {n_out} distinct nodes, input {n_in}", wit)
-                if reflect.duplicate_groups(res) > 0 and not flags.get("may_grow"):
+                if reflect.duplicate_groups(res, reflect.MAPPER_INVISIBLE) > 0 \
+                        and not flags.get("may_grow"):
                     col.violation(f"C13:sharing-lost:{name}",
                                   f"{name}: result contains structurally equal distinct nodes "
                                   "(uses of one shared node were mapped to different objects)",
@@ -353,9 +354,14 @@ def check_graph(desc: dict[str, Any], col: common.Collector, apps: list[Any], tr
         # replace ONE use of v by the twin
         used = [False]
 
+        visible = {id(n) for n in walk_nobody}
+
         def fn2(n: Any, vals: dict[str, Any]) -> Any:
-            if not used[0]:
+            # (only a use that mappers can see: not inside a normalised slice bound)
+            if not used[0] and id(n) in visible:
                 for k, val in vals.items():
+                    if k == "indices":
+                        continue
                     if val is v:
                         vals[k] = twin
                         used[0] = True
@@ -370,7 +376,8 @@ def check_graph(desc: dict[str, Any], col: common.Collector, apps: list[Any], tr
             gd = reflect.rebuild(g, fn2)
         except Exception:  # noqa: BLE001
             gd = None
-        if gd is None or not used[0] or not any(n is v for n in reflect.walk(gd)):
+        if gd is None or not used[0] or not any(
+                n is v for n in reflect.walk(gd, skip_kinds=reflect.MAPPER_INVISIBLE)):
             # v had a single use: put the node and its twin side by side under one root
             try:
                 gd = pt.make_dict_of_named_arrays({"vf_orig": v, "vf_twin": twin})
@@ -378,7 +385,8 @@ def check_graph(desc: dict[str, Any], col: common.Collector, apps: list[Any], tr
             except Exception:  # noqa: BLE001
                 gd = None
         if gd is not None and used[0] and reflect.duplicate_groups(gd) > 0 and \
-                any(n is v for n in reflect.walk(gd)):
+                any(n is v for n in reflect.walk(gd, skip_kinds=reflect.MAPPER_INVISIBLE)) and \
+                any(n is twin for n in reflect.walk(gd, skip_kinds=reflect.MAPPER_INVISIBLE)):
             from pytato import transform as tr
             col.count("mon.collision_oracle")
             wit = {"desc": desc, "duplicated": type(v).__name__}
@@ -396,11 +404,12 @@ def check_graph(desc: dict[str, Any], col: common.Collector, apps: list[Any], tr
                 col.violation(f"C13:collision-wrong-error:{type(e).__name__}", str(e)[:120], wit)
             try:
                 dd = tr.deduplicate(gd)
-                if reflect.duplicate_groups(dd) > 0:
+                if reflect.duplicate_groups(dd, reflect.MAPPER_INVISIBLE) > 0:
                     col.violation(f"C13:deduplicate-leaves-duplicates:{type(v).__name__}",
                                   "deduplicate returned a graph that still contains structurally "
                                   "equal distinct nodes", wit)
-                if len(reflect.walk(dd)) > len(reflect.walk(gd)) - 1:
+                if len(reflect.walk(dd, skip_kinds=reflect.MAPPER_INVISIBLE)) > \
+                        len(reflect.walk(gd, skip_kinds=reflect.MAPPER_INVISIBLE)) - 1:
                     col.violation("C13:deduplicate-grows", "deduplicate did not merge the twin",
                                   wit)
             except Exception as e:  # noqa: BLE001
